@@ -293,6 +293,23 @@ def run(ctx):
     for kind_t in ['key_hash', 'address', 'signature', 'key', 'chain_id', 'tx_rollup_l2_address']:
         for force in ([0.1, 0.3, 0.47, 0.9] if ctx.tier == 'quick' else [0.1, 0.1, 0.3, 0.3, 0.47, 0.47, 0.9, 0.9]):
             cases.append(('dom', {'prim': kind_t}, g.gen_dom(rng, g.TYPE_TO_KIND[kind_t], force)))
+    # unions nested 3 to 6 deep: every value is a path of Left / Right choices whose ORDER is the value (full binary trees of the same
+    # leaf type, so that a permuted path still type-checks and can only be told by where it ends)
+    def or_tree(d, leaf):
+        return leaf if d == 0 else {'prim': 'or', 'args': [or_tree(d - 1, leaf), or_tree(d - 1, leaf)]}
+
+    def or_value(path, leaf_v):
+        v = leaf_v
+        for step in reversed(path):
+            v = (step, v)
+        return v
+    for d in (3, 4, 5, 6):
+        for _ in range(6 if ctx.tier == 'quick' else 60):
+            leaf_t = rng.choice([{'prim': 'nat'}, {'prim': 'string'}, {'prim': 'option', 'args': [{'prim': 'int'}]}])
+            path = [rng.choice(['left', 'right']) for _ in range(d)]
+            if path == path[::-1] or len(set(path[1:])) == 1:
+                path[1], path[-1] = 'left', 'right'              # a path that differs from its own reverse below the root
+            cases.append((f'or-depth{d}', or_tree(d, leaf_t), or_value(path, g.gen_value(rng, leaf_t, pairs_ok))))
     for i in range(n_rand):
         depth = rng.choice([1, 2, 2, 3, 3, 4])
         t = g.gen_type(rng, depth, pairs_ok=pairs_ok)
@@ -527,6 +544,24 @@ def malformed_cases(ctx, cases, rendered):
     out.append(('nary-control', 'nary-over-pair', T('pair', nat, nat, nat, T('list', nat)), P('Pair', I(1), I(2), I(3), [I(4), I(5)]), True))
     out.append(('nary', 'nary-pair:list', T('pair', nat, nat, nat, T('list', nat)), P('Pair', I(1), I(2), I(3), I(4), I(5)), False))
     out.append(('nary', 'nary-seq:list', T('pair', nat, nat, nat, T('list', nat)), [I(1), I(2), I(3), I(4), I(5)], False))
+
+    # ---- (2b) sets / maps / big_map literals of 3..6 elements: strictly ascending keys only — the first element may well be the minimum
+    # while a LATER neighbour pair is swapped or repeated
+    for _ in range(8 if quick else 200):
+        n = rng.choice([3, 3, 4, 5, 6])
+        ks = sorted(rng.sample(range(0, 200), n))
+        kind = rng.choice(['nat', 'string', 'pair'])
+        key = {'nat': lambda k: I(k), 'string': lambda k: {'string': 'k%03d' % k}, 'pair': lambda k: P('Pair', I(k // 10), I(k % 10))}[kind]
+        kt = {'nat': nat, 'string': string, 'pair': T('pair', nat, nat)}[kind]
+        j = rng.randrange(1, n - 1)
+        swapped = ks[:j] + [ks[j + 1], ks[j]] + ks[j + 2:]
+        dup = ks[:j + 1] + [ks[j]] + ks[j + 1:]
+        for label, seq, ok in (('sorted', ks, True), ('later-pair-swapped', swapped, False), ('later-element-repeated', dup, False),
+                               ('reversed', ks[::-1], False)):
+            grp = 'collection-order-control' if ok else 'collection-order'
+            out.append((grp, f'set:{label}:{kind}', T('set', kt), [key(k) for k in seq], ok))
+            out.append((grp, f'map:{label}:{kind}', T('map', kt, nat), [P('Elt', key(k), I(i)) for i, k in enumerate(seq)], ok))
+            out.append((grp, f'big_map:{label}:{kind}', T('pair', nat, T('big_map', kt, nat)), P('Pair', I(0), [P('Elt', key(k), I(i)) for i, k in enumerate(seq)]), ok))
 
     # ---- (3) strings: printable ASCII and newlines only
     strs = ['a\tb', '\x01', '\x7f', 'a\nb', '\n', '\r\n', '\r', '\x00', 'ab\x00', '\x1f', '\x0b', '\x0c', '\x1b[0m', ' ', '~', ' ~', '', 'plain',
